@@ -13,7 +13,6 @@ package signedexchange
 // objects allocated here.
 //@ func encodeHeaders
 //@   props C08 C19
-//@   trusted
 //@   requires entriesFresh(encs) && entriesDistinct(encs)
 //@   ensures entriesFresh(result) && entriesDistinct(result) && len(result) >= len(encs)
 //@   ensures forall k int :: 0 <= k && k < len(encs) ==> result[k] == old(encs[k])
